@@ -14,8 +14,9 @@ from ..engine import Clause, Violation, require
 
 ASSUMPTIONS = [
     "oracle = RefTemporal (dict (time, node set) -> [weight, metadata])",
-    "times 0..6; rejected times generated only for insertions: -1, 1.0, 2.5, '3', None "
-    "(bool and numpy integers are not generated: whether they count as integers is unspecified)",
+    "times 0..6; rejected times generated only for insertions: -1, -4, 2.5, '3', None "
+    "(bool, numpy integers and integer-valued floats such as 1.0 are not generated: whether they "
+    "count as integers is unspecified)",
     "remove_edges of the temporal class is outside the statement and not called",
     "a weighted add_edges batch listing the same node tuple at two different times is excluded "
     "(whether the duplicate test looks at the time is unspecified in C03)",
@@ -25,7 +26,7 @@ ASSUMPTIONS = [
 
 SIZES = list(range(0, 7))
 TGRID = list(range(-1, 9))
-BAD_TIMES = [-1, 1.0, 2.5, "3", None]
+BAD_TIMES = [-1, 2.5, "3", None, -4]
 
 
 def valid_time(t):
